@@ -67,6 +67,7 @@ structure Component where
 /-- run a component over all lines; `case …` lines are echoed and reset the state. -/
 def runLines (c : Component) (lines : List String) : List String := Id.run do
   let mut st := c.init
+  let mut st2 := c.init
   let mut out : Array String := #[]
   for l in lines do
     let ts := tokens l
@@ -74,7 +75,15 @@ def runLines (c : Component) (lines : List String) : List String := Id.run do
     | [] => pure ()
     | "case" :: _ =>
       st := c.init
+      st2 := c.init
       out := out.push l.trimAscii.toString
+    | "twin" :: rest =>
+      -- `twin <op>`: the op is executed by a SECOND instance built from the same factory (a second peer
+      -- connection).  Instances share nothing: the twin has its own, independent model state, its output
+      -- lines carry the prefix `twin `, and nothing it does changes what the first instance prints.
+      let (st', o) := c.step st2 rest
+      st2 := st'
+      for x in o do out := out.push ("twin " ++ x)
     | "amb" :: _ => pure ()   -- the surroundings of the interceptor under test (transparent neighbours, attribute
                               -- reuse, chain wrapping): no model depends on them — that is what C01 states
 
